@@ -4,6 +4,7 @@ import copy
 import sys
 
 import lena
+import lena.flow
 from lena.core import LenaTypeError, LenaValueError
 
 
